@@ -235,6 +235,10 @@ def oracles(spec: dict, inputs: list[dict], r: dict) -> list[dict]:
                     allowed.add(exp["exit"])
             elif k == "list":
                 allowed |= {0, 2}
+            elif "/plan_output_" in path and op in ("open-w", "write", "flush", "close") and arg != 17:
+                # a report file in the per-run output directory could not be written - the auto report or one of the
+                # project's own: report generation failed, the contract says 2 (nothing can be retried or absorbed here)
+                allowed |= {2}
             else:
                 allowed |= {0, 2}
             if exp["exit"] != 0:
